@@ -19,13 +19,15 @@
 //! Configuration dimension (`Cfg`): every field of `VectorEngineConfig` that switches a code path gets an engine
 //! built with a value that makes the switch fire on tiny stores (parallel_threshold=2, max_keys_per_scan=2/1,
 //! max_dimension=2, sparse_threshold=0/1, batch_parallel_threshold=2, search_timeout=1h, all at once). Parts
-//! R / S / F / M / N / P run again (or only) on those engines.
+//! R / E / S / F / C / N run again on those engines (the part each configuration can influence, see `explore_all`).
+//! Part K : compute_similarity over every pair of grid vectors.
 //! Part M : metadata mutators (update_metadata / remove_metadata_field) between filtered searches.
 //! Part N : entity embeddings (set_entity_embedding / remove_entity_embedding / search_entities[_paginated]).
 //! Part P : persistence as a store path (save_index[_binary] / load_index[_binary]) in both worlds.
 //! Part X : indexes held by the caller (build_hnsw_index* + search_with_hnsw[_and_metric], build_ivf_index* +
 //!          search_with_ivf[_nprobe]) over every multiset of grid vectors.
-//! After every step of every sequence part the listing functions (list_keys*, count, exists, list_keys_paginated,
+//! After every step of the sequence parts (`Battery::listings`; off in the largest default-configuration runs, whose
+//! alphabets are listed one level lower) the listing functions (list_keys*, count, exists, list_keys_paginated,
 //! list_keys_matching, count_matching, list_collection_keys, collection_count, …) are compared with the reference.
 use nvc::Report;
 use rayon::prelude::*;
@@ -1124,9 +1126,29 @@ fn case_json(part: &str, w: World, cfg: Cfg, ops: &[Op], api: Api, q: &[f32], k:
 
 /// decide the signature of a failed search by re-running variants on a fresh replay of the same history
 #[allow(clippy::too_many_arguments)]
-fn diagnose(e: &VectorEngine, w: World, ops: &[Op], model: &Model, api: Api, q: &[f32], k: usize, weak: bool, f: &Fail, out: &Outcome) -> String {
+fn diagnose(e: &VectorEngine, w: World, ops: &[Op], model: &Model, api: Api, q: &[f32], k: usize, f: &Fail, out: &Outcome) -> String {
     let cfg = model.cfg;
-    if model.cache_valid() {
+    // does the same history pass on an engine with the default configuration (same data reached)?
+    let config_specific = cfg != Cfg::Default && {
+        let d = Lease::get(Cfg::Default, false);
+        match setup(&d, w, Cfg::Default, ops) {
+            Ok((m3, _)) if m3.data == model.data => judge(&run_api(&d, api, q, k), weak_for(api, &m3), &m3, api, q, k).is_none(),
+            _ => {
+                // a bounded clear() left other data behind than an unbounded one: compare on the same data instead
+                let same_data: Vec<Op> = model.data.iter().map(|(k, (v, t))| t.map_or(Op::Store(k, v.clone()), |t| Op::StoreMeta(k, v.clone(), t))).collect();
+                guarded(|| reset_engine(&d)) == Ok(true) && setup(&d, w, Cfg::Default, &same_data).is_ok_and(|(m4, _)| judge(&run_api(&d, api, q, k), weak_for(api, &m4), &m4, api, q, k).is_none())
+            }
+        }
+    };
+    // a filtered search that looked at one page of keys only? (which page depends on the store's hash order, so the
+    // replays below may not reproduce it: decided by the comparison with the engine without the bound)
+    if let (true, Some(b), Api::Filtered(..)) = (config_specific, cfg.scan_bound(), api) {
+        if model.data.len() > b && matches!(f.kind, "too-few" | "not-top-k") {
+            return "c06:scan-bound-truncates:search_similar_filtered".to_string();
+        }
+    }
+    let uses_cache = !matches!(api, Api::Metric(_) | Api::Entities | Api::EntPaged(..));
+    if model.cache_valid() && uses_cache && !config_specific {
         if matches!(f.kind, "wrong-dimension" | "panic") && model.snap.as_ref().is_some_and(|(s, _)| s.values().next().is_some_and(|v| v.len() != q.len())) {
             return format!("c06:cached-index-ignores-query-dimension:{}", w.short());
         }
@@ -1137,26 +1159,23 @@ fn diagnose(e: &VectorEngine, w: World, ops: &[Op], model: &Model, api: Api, q: 
         }
         return format!("c06:cached-index:{}:{}", api.func(), f.kind);
     }
-    // 0. a filtered search that looked at one page of keys only? (which page depends on the store's hash order, so the
-    //    replays below may not reproduce it: decided on an engine without the bound)
-    if let (Some(b), Api::Filtered(..)) = (cfg.scan_bound(), api) {
-        if model.data.len() > b && matches!(f.kind, "too-few" | "not-top-k") {
-            let d = Lease::get(Cfg::Default, false);
-            if let Ok((m3, _)) = setup(&d, w, Cfg::Default, ops) {
-                if m3.data == model.data && judge(&run_api(&d, api, q, k), weak_for(api, &m3), &m3, api, q, k).is_none() {
-                    return "c06:scan-bound-truncates:search_similar_filtered".to_string();
-                }
-            }
-        }
-    }
-    if let (Ok(true), Ok((m2, _))) = (guarded(|| reset_engine(e)), setup(e, w, cfg, ops)) {
+    // the history is replayed in a thread of its own, like the node's first run: with a scan bound, which keys a bounded
+    // clear() or index build picks depends on the store's hash order, and that is a function of the thread's history
+    let replayed = if guarded(|| reset_engine(e)) == Ok(true) { in_thread(|| setup(e, w, cfg, ops).ok()) } else { None };
+    if let Some((m2, _)) = replayed {
         // 1. is a stale cached index the cause? (the replay fails as well, and passes once the cache is dropped)
-        if model.snap.is_some() && judge(&run_api(e, api, q, k), weak_for(api, &m2), &m2, api, q, k).is_some() {
+        //    (asked twice: the store's scan order, and with it the order of tied results, may change from call to call)
+        let passes = |e: &VectorEngine| judge(&run_api(e, api, q, k), weak_for(api, &m2), &m2, api, q, k).is_none();
+        if model.snap.is_some() && !model.cache_valid() && uses_cache && !passes(e) {
             e.invalidate_hnsw_cache(if w == World::Default { "_default" } else { COLL });
-            if judge(&run_api(e, api, q, k), weak_for(api, &m2), &m2, api, q, k).is_none() {
+            if passes(e) && passes(e) {
                 let culprit = model.since_build.first().copied().unwrap_or("unknown");
                 return format!("c06:stale-index-after-{culprit}");
             }
+        }
+        if config_specific {
+            // one signature per configuration and entry point, whatever way the wrong answer shows
+            return format!("c06:cfg-{}:{}:{}", cfg.name(), w.short(), api.func());
         }
         // 2. post-filter with bounded oversampling drops matching vectors?
         if let Api::Filtered(_, s) | Api::FilteredColl(_, s) = api {
@@ -1178,16 +1197,9 @@ fn diagnose(e: &VectorEngine, w: World, ops: &[Op], model: &Model, api: Api, q: 
             }
         }
     }
-    // 4. does the same history pass on an engine with the default configuration?
-    if cfg != Cfg::Default {
-        let d = Lease::get(Cfg::Default, false);
-        if let Ok((m3, _)) = setup(&d, w, Cfg::Default, ops) {
-            if judge(&run_api(&d, api, q, k), weak_for(api, &m3), &m3, api, q, k).is_none() {
-                return format!("c06:cfg-{}:{}:{}:{}", cfg.name(), w.short(), api.func(), f.kind);
-            }
-        }
+    if config_specific {
+        return format!("c06:cfg-{}:{}:{}", cfg.name(), w.short(), api.func());
     }
-    let _ = weak;
     format!("c06:{}:{}:{}", w.short(), api.func(), f.kind)
 }
 
@@ -1265,7 +1277,6 @@ fn listings(e: &VectorEngine, w: World, model: &Model, n: &mut u64) -> Option<(&
             for k in KEYS {
                 tick!((e.exists(k) != live.contains(k)).then(|| ("exists", Fail { kind: "differs", msg: format!("exists({k}) = {}", e.exists(k)) })));
             }
-            let mut union: Vec<String> = vec![];
             for (skip, limit) in [(0usize, Some(1usize)), (1, Some(1)), (2, Some(1)), (1, Some(2)), (1, None), (0, Some(cnt + 1))] {
                 let with_total = skip == 0;
                 let page = e.list_keys_paginated(Pagination { skip, limit, count_total: with_total });
@@ -1277,14 +1288,9 @@ fn listings(e: &VectorEngine, w: World, model: &Model, n: &mut u64) -> Option<(&
                 if with_total {
                     tick!((page.total_count != Some(cnt)).then(|| ("list_keys_paginated", Fail { kind: "count-differs", msg: format!("total_count = {:?}, {cnt} embeddings are stored", page.total_count) })));
                 }
-                if limit == Some(1) {
-                    union.extend(page.items);
-                }
             }
-            if bound.is_none() && cnt <= 3 {
-                // the one-key pages at skip 0, 1, 2 together are the whole key set
-                tick!(list_check("list_keys_paginated", &union, &live, model, true, None));
-            }
+            // (pages of successive calls are not compared with each other: the store's scan order may differ from call to
+            // call, and nothing in the property promises stable pages)
             let tagged: BTreeSet<&'static str> = model.data.iter().filter(|(_, (_, t))| *t == Some("x")).map(|(k, _)| *k).collect();
             let matching = e.list_keys_matching(&Filt::TagX.cond());
             tick!(list_check("list_keys_matching", &matching, &tagged, model, complete, None));
@@ -1333,16 +1339,16 @@ fn check_node(ctx: &Ctx, ops: &[Op], acc: &mut Acc) {
     let mut local = Acc::default();
     {
         // engines are obtained outside the node thread so that pooled-or-new does not shift its hasher seed sequence
-        let (e, d) = (Lease::get(ctx.cfg, false), Lease::get(ctx.cfg, false));
-        in_thread(|| node_body(ctx, ops, &mut local, &e, &d));
+        let e = Lease::get(ctx.cfg, false);
+        in_thread(|| node_body(ctx, ops, &mut local, &e));
     }
     let wanted = local.viol.keys().any(|sig| acc.wants(sig, ops.len()));
     if wanted {
         // re-run the whole node on a brand-new engine; artefacts are taken from that run only
         let mut fresh = Acc::default();
         {
-            let (e, d) = (Lease::get(ctx.cfg, true), Lease::get(ctx.cfg, false));
-            in_thread(|| node_body(ctx, ops, &mut fresh, &e, &d));
+            let e = Lease::get(ctx.cfg, true);
+            in_thread(|| node_body(ctx, ops, &mut fresh, &e));
         }
         for sig in local.viol.keys() {
             if !fresh.viol.contains_key(sig) {
@@ -1362,13 +1368,16 @@ fn check_node(ctx: &Ctx, ops: &[Op], acc: &mut Acc) {
     }
     acc.merge(local);
 }
-fn node_body(ctx: &Ctx, ops: &[Op], acc: &mut Acc, e: &VectorEngine, diag: &VectorEngine) {
-    node_inner(ctx, ops, acc, e, diag);
+fn node_body(ctx: &Ctx, ops: &[Op], acc: &mut Acc, e: &VectorEngine) {
+    node_inner(ctx, ops, acc, e);
     if ops.iter().any(|o| matches!(o, Op::Save)) {
         remove_save_files();
     }
 }
-fn node_inner(ctx: &Ctx, ops: &[Op], acc: &mut Acc, e: &VectorEngine, diag: &VectorEngine) {
+fn node_inner(ctx: &Ctx, ops: &[Op], acc: &mut Acc, e: &VectorEngine) {
+    // second engine for the diagnosis of a failed search: taken when first needed, in a thread of its own so that
+    // pooled-or-new does not shift this thread's hasher seed sequence
+    let mut diag: Option<Lease> = None;
     let w = ctx.world;
     let cfg = ctx.cfg;
     let (model, last_ok) = match setup(e, w, cfg, ops) {
@@ -1437,7 +1446,9 @@ fn node_inner(ctx: &Ctx, ops: &[Op], acc: &mut Acc, e: &VectorEngine, diag: &Vec
                     }
                 }
                 if let Some(f) = judge(&out, weak, &model, api, q, k) {
-                    let sig = diagnose(diag, w, ops, &model, api, q, k, weak, &f, &out);
+                    let diag: &VectorEngine = diag.get_or_insert_with(|| in_thread(|| Lease::get(cfg, false)));
+                    // in a thread of its own: whatever the diagnosis does must not shift this thread's hasher seed sequence
+                    let sig = in_thread(|| diagnose(diag, w, ops, &model, api, q, k, &f, &out));
                     if !acc.wants(&sig, ops.len()) {
                         acc.count(sig);
                         continue;
@@ -1915,6 +1926,39 @@ fn part_user_index(plan: &[(Vec<Vec<f32>>, usize)]) -> Acc {
     total
 }
 
+// ------------------------------------------------------------------ Part K: the public pairwise helper
+fn k_case(a: &[f32], b: &[f32]) -> Option<Fail> {
+    match guarded(|| VectorEngine::compute_similarity(a, b)) {
+        Ok(Ok(s)) => match true_score(M::Cos, a, b) {
+            Some(t) if !((f64::from(s) - t).abs() <= SCORE_TOL) => fail("score", format!("compute_similarity({a:?}, {b:?}) = {s}, the cosine is {t}")),
+            _ => None,
+        },
+        Ok(Err(e)) => fail("error", format!("compute_similarity({a:?}, {b:?}) failed: {e}")),
+        Err(p) => fail("panic", format!("compute_similarity({a:?}, {b:?}) panicked: {p}")),
+    }
+}
+/// compute_similarity over every ordered pair of grid vectors of equal dimension
+fn part_pairwise() -> Acc {
+    let mut acc = Acc::default();
+    for d in [2usize, 3] {
+        let g = grid(d);
+        for a in &g {
+            for b in &g {
+                acc.nodes += 1;
+                acc.searches += 1;
+                acc.exact_checks += 1;
+                if true_score(M::Cos, a, b).is_some() {
+                    acc.nontrivial_searches += 1;
+                }
+                if let Some(f) = k_case(a, b) {
+                    acc.violation(format!("c06:compute_similarity:{}", f.kind), d, f.msg, json!({"part":"K","a":a,"b":b}));
+                }
+            }
+        }
+    }
+    acc
+}
+
 // ------------------------------------------------------------------ replay of one recorded case
 fn replay_case(rep: &mut Report, c: &Value) {
     let part = c.get("part").and_then(Value::as_str).unwrap_or("");
@@ -1931,6 +1975,13 @@ fn replay_case(rep: &mut Report, c: &Value) {
                 _ => eprintln!("replay: holds"),
             }
         }
+        "K" => match (jvec(&c["a"]), jvec(&c["b"])) {
+            (Some(a), Some(b)) => match k_case(&a, &b) {
+                Some(f) => rep.violation(format!("c06:compute_similarity:{}", f.kind), f.msg, c.clone()),
+                None => eprintln!("replay: holds"),
+            },
+            _ => rep.machinery("replay file not understood"),
+        },
         "X" => {
             let vectors: Vec<Vec<f32>> = c["vectors"].as_array().map(|a| a.iter().filter_map(jvec).collect()).unwrap_or_default();
             let x = c["xapi"].as_str().and_then(XApi::parse);
@@ -1978,7 +2029,8 @@ fn replay_case(rep: &mut Report, c: &Value) {
             };
             let e = cfg.engine();
             let diag = cfg.engine();
-            let (model, _) = match setup(&e, w, cfg, &ops) {
+            // in a thread of its own, like every node of the exploration (same hash order of the store's scans)
+            let (model, _) = match in_thread(|| setup(&e, w, cfg, &ops)) {
                 Ok(x) => x,
                 Err(p) => {
                     rep.machinery(format!("replay: mutator panicked: {p}"));
@@ -2009,19 +2061,27 @@ fn replay_case(rep: &mut Report, c: &Value) {
             };
             let k = c["k"].as_u64().unwrap_or(1) as usize;
             let weak = weak_for(api, &model);
-            let out = run_api(&e, api, &q, k);
-            let got = match &out {
-                Outcome::Ok(res) => format!("{:?}", res.iter().map(|r| (r.key.clone(), r.score)).collect::<Vec<_>>()),
-                Outcome::Err(e) => format!("Err({e})"),
-                Outcome::Panic(p) => format!("panic({p})"),
-            };
-            eprintln!("replay: {} {}(q={q:?},k={k}) after {ops:?} -> {got}; live = {:?}", w.name(), api.name(), model.data);
-            match judge(&out, weak, &model, api, &q, k) {
-                Some(f) => {
-                    let sig = diagnose(&diag, w, &ops, &model, api, &q, k, weak, &f, &out);
+            // with a scan bound the answer may depend on the store's hash order, which changes from call to call: the
+            // recorded search is repeated, the first wrong answer is reported
+            let attempts = if cfg.scan_bound().is_some() { 32 } else { 1 };
+            let mut held = true;
+            for attempt in 1..=attempts {
+                let out = run_api(&e, api, &q, k);
+                let got = match &out {
+                    Outcome::Ok(res) => format!("{:?}", res.iter().map(|r| (r.key.clone(), r.score)).collect::<Vec<_>>()),
+                    Outcome::Err(e) => format!("Err({e})"),
+                    Outcome::Panic(p) => format!("panic({p})"),
+                };
+                eprintln!("replay (attempt {attempt}): {} [{}] {}(q={q:?},k={k}) after {ops:?} -> {got}; live = {:?}", w.name(), cfg.name(), api.name(), model.data);
+                if let Some(f) = judge(&out, weak, &model, api, &q, k) {
+                    let sig = diagnose(&diag, w, &ops, &model, api, &q, k, &f, &out);
                     rep.violation(sig, format!("{} [{}]", f.msg, f.kind), c.clone());
+                    held = false;
+                    break;
                 }
-                None => eprintln!("replay: holds"),
+            }
+            if held {
+                eprintln!("replay: holds");
             }
             remove_save_files();
         }
@@ -2145,7 +2205,16 @@ fn alphabet_scan() -> Vec<Op> {
     ]
 }
 
+/// histories and comparisons per engine configuration, summed over the parts
+static BY_CFG: std::sync::Mutex<BTreeMap<String, (u64, u64)>> = std::sync::Mutex::new(BTreeMap::new());
 fn report_part(rep: &mut Report, name: &str, acc: &Acc, extra: Value) {
+    {
+        let cfg = extra.get("engine_config").and_then(Value::as_str).unwrap_or("default").to_string();
+        let mut m = BY_CFG.lock().unwrap();
+        let e = m.entry(cfg).or_default();
+        e.0 += acc.nodes;
+        e.1 += acc.searches + acc.readbacks + acc.listings;
+    }
     let mut v = json!({
         "nodes": acc.nodes, "searches_checked": acc.searches, "checked_against_exact_oracle": acc.exact_checks, "checked_against_index_oracle": acc.weak_checks,
         "readbacks": acc.readbacks, "listings_compared": acc.listings, "distinct_model_states": acc.states.len(), "states_with_2plus_candidates": acc.nontrivial_states.len(),
@@ -2223,9 +2292,9 @@ fn explore_all(rep: &mut Report, thorough: bool) {
             e_plan.push((World::Named(m), Cfg::Default, 0, 2, true));
             e_plan.push((World::Named(m), Cfg::Default, 3, 3, false));
         }
-        e_plan.push((World::Default, Cfg::Par2, 0, 3, true));
-        e_plan.push((World::Default, Cfg::SparseAll, 0, 3, false));
-        e_plan.push((World::Default, Cfg::Combo, 0, 3, false));
+        e_plan.push((World::Default, Cfg::Par2, 0, 2, true));
+        e_plan.push((World::Default, Cfg::SparseAll, 0, 2, true));
+        e_plan.push((World::Default, Cfg::Combo, 0, 2, true));
         e_plan.push((World::Named(M::Dot), Cfg::SparseAll, 0, 2, false));
     } else {
         e_plan.push((World::Default, Cfg::Default, 0, 2, true));
@@ -2239,7 +2308,7 @@ fn explore_all(rep: &mut Report, thorough: bool) {
     let mut e_nontrivial = 0;
     let mut e_builds = 0;
     for (w, cfg, lo, hi, allq) in e_plan {
-        let b = Battery { queries: if allq { all_q.clone() } else { few_q.clone() }, apis: if w == World::Default { d_apis.clone() } else { n_apis.clone() }, skip_failed_build: true, listings: thorough || hi <= 2 };
+        let b = Battery { queries: if allq { all_q.clone() } else { few_q.clone() }, apis: if w == World::Default { d_apis.clone() } else { n_apis.clone() }, skip_failed_build: true, listings: hi <= 2 || (thorough && hi <= 3) };
         let e = part_sets(&Ctx { part: "E", world: w, cfg, battery: &b }, &gridv, lo, hi);
         let cfg_tag = if cfg == Cfg::Default { String::new() } else { format!("_{}", cfg.name()) };
         report_part(rep, &format!("E_sets_{}{}_size{}to{}", w.name().replace(':', "_"), cfg_tag, lo, hi), &e, json!({"engine_config": cfg.name(), "vector_alphabet": gridv.len(), "queries": b.queries.len(), "wall_s": lap()}));
@@ -2259,15 +2328,18 @@ fn explore_all(rep: &mut Report, thorough: bool) {
     // ---- S: default configuration
     let s_apis = vec![Api::Similar, Api::Metric(M::Dot), Api::Metric(M::Euc), Api::Filtered(Filt::True, Strat::Auto), Api::Filtered(Filt::TagX, Strat::Auto), Api::Filtered(Filt::TagX, Strat::Pre)];
     let s_q = vec![v2(1, 0), v2(0, 1), v2(1, 1), v2(-1, 1), vec![1.0, 0.0, 0.0]];
-    // quick: the listings are compared in the depth-3 run over the same alphabet below
-    let b = Battery { queries: s_q.clone(), apis: s_apis.clone(), skip_failed_build: false, listings: thorough };
+    // the listings are compared in the runs over the same alphabet one level below (and in the thorough depth-4 runs)
+    // quick: the pass-through filter (search_similar plus a filter that keeps everything) moves to the depth-3 run below
+    let s_main_apis: Vec<Api> = s_apis.iter().copied().filter(|a| thorough || *a != Api::Filtered(Filt::True, Strat::Auto)).collect();
+    let b = Battery { queries: s_q.clone(), apis: s_main_apis, skip_failed_build: false, listings: false };
+    let b_listed = Battery { queries: s_q.clone(), apis: s_apis.clone(), skip_failed_build: false, listings: true };
     let s_depth = if thorough { 5 } else { 4 };
     let full = alphabet_default(&KEYS[..2], false);
     let mut alpha = full.clone();
     if thorough {
         // depth 5 runs over 13 of the 15 ops; the two dropped ones stay in the depth-4 runs below
         alpha.retain(|o| *o != Op::BatchDelete(KEYS[..2].to_vec()) && *o != Op::Store("b", vec![1.0, 0.0, 0.0]));
-        run_seq(rep, &mut all, &mut lap, "S_sequences_default_depth4_full_alphabet", "S4", World::Default, Cfg::Default, &b, &full, 4);
+        run_seq(rep, &mut all, &mut lap, "S_sequences_default_depth4_full_alphabet", "S4", World::Default, Cfg::Default, &b_listed, &full, 4);
     }
     let st = run_seq(rep, &mut all, &mut lap, "S_sequences_default", "S", World::Default, Cfg::Default, &b, &alpha, s_depth);
     if st.builds_ok == 0 || st.weak_checks == 0 || st.states < 50 {
@@ -2277,35 +2349,53 @@ fn explore_all(rep: &mut Report, thorough: bool) {
         let alpha = alphabet_default(&KEYS[..2], true);
         run_seq(rep, &mut all, &mut lap, "S_sequences_default_with_zero_vector", "S0", World::Default, Cfg::Default, &b, &alpha, 4);
         let alpha = alphabet_default(&KEYS[..3], false);
-        run_seq(rep, &mut all, &mut lap, "S_sequences_default_3keys", "S3", World::Default, Cfg::Default, &b, &alpha, 4);
+        run_seq(rep, &mut all, &mut lap, "S_sequences_default_3keys", "S3", World::Default, Cfg::Default, &b_listed, &alpha, 4);
     }
     // the remaining default-collection search variants (cosine through the metric entry point, every page shape)
-    let more_apis = vec![Api::Metric(M::Cos), Api::Filtered(Filt::TagX, Strat::Post), Api::Paged(0, Some(1)), Api::Paged(1, Some(1)), Api::Paged(1, Some(2)), Api::Paged(0, Some(3)), Api::Paged(1, None), Api::Paged(2, None)];
+    let more_apis = vec![Api::Metric(M::Cos), Api::Filtered(Filt::True, Strat::Auto), Api::Filtered(Filt::TagX, Strat::Post), Api::Paged(0, Some(1)), Api::Paged(1, Some(1)), Api::Paged(1, Some(2)), Api::Paged(0, Some(3)), Api::Paged(1, None), Api::Paged(2, None)];
     let bm = Battery { queries: s_q.clone(), apis: more_apis.clone(), skip_failed_build: false, listings: true };
     run_seq(rep, &mut all, &mut lap, "S_sequences_default_more_search_variants", "S", World::Default, Cfg::Default, &bm, &full, if thorough { 4 } else { 3 });
 
     // ---- S again on engines built with non-default configurations: (configuration, alphabet, depth, search variants)
-    let every_api: Vec<Api> = s_apis.iter().chain(more_apis.iter()).copied().collect();
+    let mut every_api: Vec<Api> = s_apis.clone();
+    every_api.extend(more_apis.iter().copied().filter(|a| !s_apis.contains(a)));
     let scan_alpha = alphabet_scan();
     let full3 = alphabet_default(&KEYS[..3], false);
+    // the search variants a configuration can influence
+    let tailored = |cfg: Cfg| -> Vec<Api> {
+        match cfg {
+            Cfg::Par2 | Cfg::Combo => vec![Api::Similar, Api::Metric(M::Cos), Api::Metric(M::Dot), Api::Metric(M::Euc), Api::Filtered(Filt::True, Strat::Auto), Api::Filtered(Filt::TagX, Strat::Post), Api::Paged(1, Some(2))],
+            Cfg::Scan1 => vec![Api::Similar, Api::Filtered(Filt::TagX, Strat::Auto), Api::Filtered(Filt::TagX, Strat::Pre), Api::Filtered(Filt::TagX, Strat::Post), Api::Paged(0, Some(1))],
+            Cfg::Scan2 => vec![Api::Similar, Api::Metric(M::Euc), Api::Filtered(Filt::TagX, Strat::Pre), Api::Paged(1, Some(1))],
+            Cfg::MaxDim2 => vec![Api::Similar, Api::Metric(M::Dot), Api::Filtered(Filt::TagX, Strat::Auto)],
+            Cfg::SparseAll | Cfg::SparseNone => vec![Api::Similar, Api::Metric(M::Dot), Api::Metric(M::Euc), Api::Filtered(Filt::TagX, Strat::Pre)],
+            Cfg::BatchPar2 => vec![Api::Similar, Api::Metric(M::Euc)],
+            Cfg::Timeout | Cfg::Default => every_api.clone(),
+        }
+    };
     let mut c_plan: Vec<(Cfg, &str, &[Op], usize, Vec<Api>)> = vec![];
     if thorough {
         for cfg in [Cfg::Par2, Cfg::Scan2, Cfg::Scan1, Cfg::MaxDim2, Cfg::SparseAll, Cfg::SparseNone, Cfg::BatchPar2, Cfg::Timeout, Cfg::Combo] {
-            c_plan.push((cfg, "2keys", &full, 4, every_api.clone()));
+            // every search variant to depth 3; for the configurations that switch search / clear / build paths the variants
+            // they can influence to depth 4 (the others switch store paths only: one store, one overwrite, one search)
+            c_plan.push((cfg, "2keys_every_variant", &full, 3, every_api.clone()));
+            if matches!(cfg, Cfg::Par2 | Cfg::Scan2 | Cfg::Scan1 | Cfg::Combo) {
+                c_plan.push((cfg, "2keys", &full, 4, tailored(cfg)));
+            }
         }
         // three keys: a page of two is a proper part of the store
         c_plan.push((Cfg::Scan2, "3keys", &full3, 3, every_api.clone()));
-        c_plan.push((Cfg::Scan2, "scan_alphabet", &scan_alpha, 5, vec![Api::Similar, Api::Metric(M::Euc), Api::Filtered(Filt::TagX, Strat::Pre), Api::Paged(1, Some(1))]));
+        c_plan.push((Cfg::Scan2, "scan_alphabet", &scan_alpha, 5, tailored(Cfg::Scan2)));
         c_plan.push((Cfg::Par2, "3keys", &full3, 3, every_api.clone()));
     } else {
-        c_plan.push((Cfg::Par2, "2keys", &full, 3, vec![Api::Similar, Api::Metric(M::Cos), Api::Metric(M::Dot), Api::Metric(M::Euc), Api::Filtered(Filt::True, Strat::Auto), Api::Filtered(Filt::TagX, Strat::Post), Api::Paged(1, Some(2))]));
-        c_plan.push((Cfg::Scan1, "2keys", &full, 3, vec![Api::Similar, Api::Filtered(Filt::TagX, Strat::Auto), Api::Filtered(Filt::TagX, Strat::Pre), Api::Filtered(Filt::TagX, Strat::Post), Api::Paged(0, Some(1))]));
-        c_plan.push((Cfg::Scan2, "scan_alphabet", &scan_alpha, 4, vec![Api::Similar, Api::Metric(M::Euc), Api::Filtered(Filt::TagX, Strat::Pre), Api::Paged(1, Some(1))]));
-        c_plan.push((Cfg::MaxDim2, "2keys", &full, 3, vec![Api::Similar, Api::Metric(M::Dot), Api::Filtered(Filt::TagX, Strat::Auto)]));
-        c_plan.push((Cfg::SparseAll, "2keys", &full, 3, vec![Api::Similar, Api::Metric(M::Dot), Api::Metric(M::Euc), Api::Filtered(Filt::TagX, Strat::Pre)]));
-        c_plan.push((Cfg::SparseNone, "2keys", &full, 2, vec![Api::Similar, Api::Metric(M::Dot), Api::Metric(M::Euc), Api::Filtered(Filt::TagX, Strat::Pre)]));
-        c_plan.push((Cfg::BatchPar2, "2keys", &full, 3, vec![Api::Similar, Api::Metric(M::Euc)]));
-        c_plan.push((Cfg::Timeout, "2keys", &full, 2, every_api.clone()));
+        c_plan.push((Cfg::Par2, "2keys", &full, 3, tailored(Cfg::Par2)));
+        c_plan.push((Cfg::Scan1, "2keys", &full, 3, tailored(Cfg::Scan1)));
+        c_plan.push((Cfg::Scan2, "scan_alphabet", &scan_alpha, 4, tailored(Cfg::Scan2)));
+        c_plan.push((Cfg::MaxDim2, "2keys", &full, 2, tailored(Cfg::MaxDim2)));
+        c_plan.push((Cfg::SparseAll, "2keys", &full, 2, tailored(Cfg::SparseAll)));
+        c_plan.push((Cfg::SparseNone, "2keys", &full, 2, tailored(Cfg::SparseNone)));
+        c_plan.push((Cfg::BatchPar2, "2keys", &full, 2, tailored(Cfg::BatchPar2)));
+        c_plan.push((Cfg::Timeout, "2keys", &full, 2, tailored(Cfg::Timeout)));
     }
     for (cfg, tag, alpha, depth, apis) in c_plan {
         let b = Battery { queries: s_q.clone(), apis, skip_failed_build: false, listings: true };
@@ -2332,7 +2422,7 @@ fn explore_all(rep: &mut Report, thorough: bool) {
                 f_apis.push(if w == World::Default { Api::Filtered(fl, st) } else { Api::FilteredColl(fl, st) });
             }
         }
-        let b = Battery { queries: fq.clone(), apis: f_apis, skip_failed_build: false, listings: thorough || cfg != Cfg::Default };
+        let b = Battery { queries: fq.clone(), apis: f_apis, skip_failed_build: false, listings: cfg != Cfg::Default };
         let cfg_tag = if cfg == Cfg::Default { String::new() } else { format!("_cfg_{}", cfg.name()) };
         run_seq(rep, &mut all, &mut lap, &format!("F_filter_{}{}", w.name().replace(':', "_"), cfg_tag), "F", w, cfg, &b, &alpha, depth);
         if cfg != Cfg::Default {
@@ -2354,16 +2444,30 @@ fn explore_all(rep: &mut Report, thorough: bool) {
     let b = Battery { queries: c_q.clone(), apis: c_apis, skip_failed_build: false, listings: true };
     let alpha = alphabet_named(&KEYS[..2]);
     for m in [M::Cos, M::Dot, M::Euc] {
-        // quick: the full depth for cosine, one level less for the other two metrics (same code but for the score)
+        // quick: depth 3 over the whole alphabet for every metric (same code but for the score) ...
         let depth = match (thorough, m) {
             (true, M::Cos) => 5,
-            (true, _) | (false, M::Cos) => 4,
+            (true, _) => 4,
             (false, _) => 3,
         };
         let st = run_seq(rep, &mut all, &mut lap, &format!("C_sequences_named_{}", m.name()), "C", World::Named(m), Cfg::Default, &b, &alpha, depth);
         if st.builds_ok == 0 || st.weak_checks == 0 {
             rep.machinery("vacuous: part C never searched through a cached index");
         }
+    }
+    if !thorough {
+        // ... and depth 4 over its core (two keys, two 2-d vectors and one 3-d vector, every kind of mutator once)
+        let core = vec![
+            Op::Store("a", v2(1, 0)),
+            Op::Store("a", v2(1, 1)),
+            Op::Store("b", v2(1, 0)),
+            Op::Store("b", vec![1.0, 0.0, 0.0]),
+            Op::Delete("a"),
+            Op::Build,
+            Op::StoreMeta("a", v2(-1, 1), "x"),
+            Op::Clear,
+        ];
+        run_seq(rep, &mut all, &mut lap, "C_sequences_named_cos_depth4_core_alphabet", "C", World::Named(M::Cos), Cfg::Default, &b, &core, 4);
     }
     // collections on the configurations their store path reads (max_dimension, sparse_threshold) and with a deadline set
     for cfg in [Cfg::MaxDim2, Cfg::SparseAll, Cfg::Timeout] {
@@ -2375,11 +2479,10 @@ fn explore_all(rep: &mut Report, thorough: bool) {
     let n_q = vec![v2(1, 0), v2(1, 1), v2(-1, 1), vec![1.0, 0.0, 0.0]];
     let b = Battery { queries: n_q, apis: vec![Api::Entities, Api::EntPaged(0, Some(1)), Api::EntPaged(1, Some(2)), Api::EntPaged(1, None)], skip_failed_build: false, listings: true };
     for cfg in [Cfg::Default, Cfg::Scan2, Cfg::SparseAll] {
-        let depth = match (thorough, cfg) {
-            (true, Cfg::Default) => 5,
-            (true, _) => 4,
-            (false, _) => 3,
-        };
+        if cfg == Cfg::SparseAll && !thorough {
+            continue;
+        }
+        let depth = if thorough { 4 } else { 3 };
         let st = run_seq(rep, &mut all, &mut lap, &format!("N_entity_embeddings_cfg_{}", cfg.name()), "N", World::Entity, cfg, &b, &alphabet_entity(), depth);
         if st.parallel_capable == 0 {
             rep.machinery("vacuous: part N never searched two entity embeddings");
@@ -2405,6 +2508,11 @@ fn explore_all(rep: &mut Report, thorough: bool) {
     }
     all.merge(x);
 
+    // ---- K
+    let kk = part_pairwise();
+    report_part(rep, "K_compute_similarity", &kk, json!({"pairs": kk.nodes, "wall_s": lap()}));
+    all.merge(kk);
+
     // ---- H
     let (h2, h3) = if thorough { (5, 3) } else { (4, 2) };
     let h = part_hnsw(h2, h3);
@@ -2421,6 +2529,7 @@ fn explore_all(rep: &mut Report, thorough: bool) {
     }
     rep.set("violating_cases_by_signature", json!(all.viol.iter().map(|(k, v)| (k.clone(), json!(v.0))).collect::<serde_json::Map<_, _>>()));
     rep.set("nodes_not_confirmed_on_new_engine_by_signature", json!(all.unconfirmed));
+    rep.set("histories_and_comparisons_by_engine_config", json!(BY_CFG.lock().unwrap().iter().map(|(k, v)| (k.clone(), json!({"histories": v.0, "comparisons": v.1}))).collect::<serde_json::Map<_, _>>()));
     rep.set("engine_configurations", json!(Cfg::ALL.iter().map(|c| (c.name().to_string(), json!(format!("{:?}", c.config())))).collect::<serde_json::Map<_, _>>()));
     rep.add("states", all.states.len() as u64);
     rep.add("transitions", all.nodes);
@@ -2460,10 +2569,11 @@ fn main() {
     rep.rule("configurations: every VectorEngineConfig field that switches a code path gets an engine built with a value that fires on tiny stores (parallel_threshold=2, max_keys_per_scan=2 and 1, max_dimension=2, sparse_threshold=0 and 1, batch_parallel_threshold=2, search_timeout=1h, all at once); parts R, E, S, F, C, N run again on those engines with the same oracles");
     rep.rule("M / N / P: every op sequence <= depth over metadata mutators (update_metadata, remove_metadata_field), entity embeddings (set/remove_entity_embedding, search_entities[_paginated]) and persistence (save_index[_binary], load_index[_binary]) with the same search battery");
     rep.rule("pages: search_*_paginated(q, k, skip, limit) must be positions skip.. of a correct ranking cut at min(k, skip+limit): right size, live keys, true scores, and the vector at rank r carries the r-th best true score");
-    rep.rule("listings after every step: list_keys[_bounded], count, exists, list_keys_paginated (8 page shapes), list_keys_matching, count_matching, dimension, list_collection_keys, collection_count, exists_in_collection, scan/count_entities_with_embeddings, entity_has_embedding: only live (matching) keys, none twice, complete unless max_keys_per_scan cuts the listing");
+    rep.rule("listings after every step (all sequence parts but the largest default-configuration runs, whose alphabet is listed one level lower): list_keys[_bounded], count, exists, list_keys_paginated (8 page shapes), list_keys_matching, count_matching, dimension, list_collection_keys, collection_count, exists_in_collection, scan/count_entities_with_embeddings, entity_has_embedding: only live (matching) keys, none twice, complete unless max_keys_per_scan cuts the listing");
     rep.rule("X: every multiset of <=S grid vectors, every index the caller can build and hold (build_hnsw_index / _with_options(auto) / _default, build_ivf_index(default, flat 2)), searched with search_with_hnsw / search_with_hnsw_and_metric / search_with_ivf / search_with_ivf_nprobe right after the build: index oracle");
     rep.assume("max_keys_per_scan: list_keys*, clear and index builds are documented to work on one page of keys (the model follows the page clear() chose); searches are not: search_similar* and search_similar_filtered must stay exact. search_entities carries the bound explicitly in its code and is outside the property's quantifier (default and named collections): on such engines only the index oracle (live keys, true scores, order, <= k) is applied to it");
     rep.assume("a query longer than max_dimension may be answered with an error (documented); VectorEngineConfig::default_metric and default_dimension are read by no code path and have no configuration here");
+    rep.rule("K: compute_similarity over every ordered pair of grid vectors of equal dimension against the f64 cosine");
     rep.assume("search_with_hnsw_and_metric(Cosine) reports (cos+1)/2 as documented on ExtendedDistanceMetric::to_similarity; IVF-flat and Euclidean report 1/(1+distance)");
 
     // the harness runs on a pool of its own: every node waits for a thread of its own, and the engine's parallel paths
